@@ -22,7 +22,11 @@ type Decoder struct {
 	indexFile   string
 	indexVolume volume
 
-	fileData [][]byte
+	// fileEntries holds the entries of the files saved in the
+	// volume set, and fileData the data of those files (nil for
+	// missing or corrupt ones), both in the same order.
+	fileEntries []fileEntry
+	fileData    [][]byte
 
 	shardByteCount int
 	parityData     [][]byte
@@ -97,7 +101,7 @@ func newDecoder(fileIO fileIO, delegate DecoderDelegate, indexFile string) (*Dec
 	return &Decoder{
 		fileIO, delegate,
 		indexFile, indexVolume,
-		nil,
+		nil, nil,
 		0, nil,
 	}, nil
 }
@@ -127,12 +131,14 @@ func (d *Decoder) getFilePath(entry fileEntry) (string, error) {
 
 // LoadFileData loads existing file data into memory.
 func (d *Decoder) LoadFileData() error {
+	fileEntries := make([]fileEntry, 0, len(d.indexVolume.entries))
 	fileData := make([][]byte, 0, len(d.indexVolume.entries))
 
 	for i, entry := range d.indexVolume.entries {
 		if !entry.header.Status.savedInVolumeSet() {
 			continue
 		}
+		fileEntries = append(fileEntries, entry)
 
 		path, err := d.getFilePath(entry)
 		if err != nil {
@@ -173,6 +179,7 @@ func (d *Decoder) LoadFileData() error {
 		return errors.New("no file data found")
 	}
 
+	d.fileEntries = fileEntries
 	d.fileData = fileData
 	return nil
 }
@@ -433,7 +440,7 @@ func (d *Decoder) Repair(checkParity bool) ([]string, error) {
 			continue
 		}
 
-		entry := d.indexVolume.entries[i]
+		entry := d.fileEntries[i]
 		data = shards[i][:entry.header.FileBytes]
 		if sixteenKHash(data) != entry.header.SixteenKHash {
 			return repairedPaths, errors.New("hash mismatch (16k) in reconstructed data")
